@@ -105,6 +105,10 @@ type Interp struct {
 	known      map[string]bool
 	symMulDiv  int
 	opaqueN    int
+	model      map[string]uint64
+	modelHits  int
+	lits       map[string]bool
+	litHits    int
 	userState  map[string]Value
 }
 
@@ -342,9 +346,114 @@ func (in *Interp) constVal(c *ssa.Const) Value {
 
 // ---------- decisions ----------
 
+// termKey renders small terms canonically (used to recognise literals already decided on this path).
+func termKey(t *Term, depth int) string {
+	if t.leaf() {
+		return t.leafSMT()
+	}
+	if depth == 0 {
+		return ""
+	}
+	k := "(" + t.op
+	if t.op == "extract" || t.op == "zext" || t.op == "sext" {
+		k += fmt.Sprintf("%d.%d", t.hi, t.lo)
+	}
+	for _, a := range t.args {
+		ak := termKey(a, depth-1)
+		if ak == "" {
+			return ""
+		}
+		k += " " + ak
+	}
+	return k + ")"
+}
+
+func (in *Interp) noteLiteral(c *Term) {
+	neg := false
+	for c.op == "not" {
+		c = c.args[0]
+		neg = !neg
+	}
+	if c.op == "and" && !neg {
+		in.noteLiteral(c.args[0])
+		in.noteLiteral(c.args[1])
+		return
+	}
+	if c.op == "or" && neg {
+		in.noteLiteral(Not(c.args[0]))
+		in.noteLiteral(Not(c.args[1]))
+		return
+	}
+	if k := termKey(c, 3); k != "" {
+		if in.lits == nil {
+			in.lits = map[string]bool{}
+		}
+		in.lits[k] = !neg
+	}
+}
+
+// knownLiteral reports whether c's truth value is already fixed by a literal of the path condition.
+func (in *Interp) knownLiteral(c *Term) (val bool, ok bool) {
+	neg := false
+	for c.op == "not" {
+		c = c.args[0]
+		neg = !neg
+	}
+	if in.lits == nil {
+		return false, false
+	}
+	k := termKey(c, 3)
+	if k == "" {
+		return false, false
+	}
+	v, ok := in.lits[k]
+	if !ok {
+		return false, false
+	}
+	return v != neg, true
+}
+
 func (in *Interp) assume(c *Term) {
 	in.sol.Assert(c)
 	in.pc = append(in.pc, c)
+	in.noteLiteral(c)
+	if in.model != nil && !in.evalModel(c) {
+		in.model = nil
+	}
+}
+
+func (in *Interp) evalModel(c *Term) bool {
+	return evalTerm(c, in.model, map[*Term]uint64{}) != 0
+}
+
+// feasible decides whether PC ∧ c is satisfiable. A model of the path condition is cached: when it
+// satisfies c no query is needed. Invariant: in.model (if non-nil) satisfies every constraint assumed so far.
+func (in *Interp) feasible(c *Term) string {
+	if c.isC {
+		if c.c != 0 {
+			return "sat"
+		}
+		return "unsat"
+	}
+	if in.model != nil && in.evalModel(c) {
+		in.modelHits++
+		return "sat"
+	}
+	if v, ok := in.knownLiteral(c); ok {
+		in.litHits++
+		if v {
+			return "sat"
+		}
+		return "unsat"
+	}
+	in.sol.Push()
+	in.sol.Assert(c)
+	r := in.sol.Check()
+	if r == "sat" && in.model == nil {
+		in.model = in.sol.Values(in.sol.DeclaredNames())
+	}
+	in.sol.Pop()
+	return r
 }
 
 // decide forks on a symbolic boolean.
@@ -372,12 +481,12 @@ func (in *Interp) decide(c *Term) bool {
 	if d >= in.lem.MaxDecisions {
 		in.abort("decision budget (%d) exceeded", in.lem.MaxDecisions)
 	}
-	rt := in.sol.CheckWith(c)
+	rt := in.feasible(c)
 	var rf string
 	if rt == "unsat" {
 		rf = "sat" // PC is satisfiable by invariant
 	} else {
-		rf = in.sol.CheckWith(Not(c))
+		rf = in.feasible(Not(c))
 	}
 	if rt == "unknown" || rf == "unknown" {
 		in.lem.noteUnknown()
@@ -459,16 +568,22 @@ func (in *Interp) concretize(t *Term) uint64 {
 			}
 			continue
 		}
-		// ask the solver for a model value
-		r := in.sol.Check()
-		if r != "sat" {
-			if r == "unknown" {
-				in.lem.noteUnknown()
-				in.abort("solver unknown during concretisation")
+		// ask the solver for a model value (or use the cached model of the path condition)
+		var v uint64
+		if in.model != nil {
+			v = evalTerm(t, in.model, map[*Term]uint64{})
+		} else {
+			r := in.sol.Check()
+			if r != "sat" {
+				if r == "unknown" {
+					in.lem.noteUnknown()
+					in.abort("solver unknown during concretisation")
+				}
+				panic(stopPath{"infeasible"})
 			}
-			panic(stopPath{"infeasible"})
+			in.model = in.sol.Values(in.sol.DeclaredNames())
+			v = evalTerm(t, in.model, map[*Term]uint64{})
 		}
-		v := in.modelValue(t)
 		_ = d
 		if in.decideWithHint(eqConst(t, v), int64(v)) {
 			return v & maskB(t.w)
@@ -761,7 +876,13 @@ func (in *Interp) run(fr *frame, b *ssa.BasicBlock) Value {
 				if _, isB := cc.Value.(*ssa.Builtin); !isB {
 					callee = in.get(fr, cc.Value)
 				}
-				fr.defers = append(fr.defers, deferred{cc: cc, callee: callee, args: args})
+				target := fr
+				if x.DeferStack != nil {
+					if tf, ok := in.get(fr, x.DeferStack).(*frame); ok && tf != nil {
+						target = tf
+					}
+				}
+				target.defers = append(target.defers, deferred{cc: cc, callee: callee, args: args})
 			case *ssa.RunDefers:
 				in.runDefers(fr)
 			case *ssa.Panic:
